@@ -2,6 +2,7 @@
 // Generator (rapidcheck) + reference model (std::string) + interpreter.  libast is reached only
 // through props/C01/shim.c.
 #include "../../engine/rcglue.hpp"
+#include "tracker.hpp"
 #include "../../engine/latrack.hpp"
 #include <cmath>
 #include <climits>
@@ -268,6 +269,7 @@ struct Interp {
 
     void run(const Case &c) {
         ht_install();
+        tracker_begin(ctx);
         size_t at = 0;
         int cls = 0;
         if (at < c.size() && c[at].name == "cls") { cls = (int)(c[at].i(0) & 1); at++; }
@@ -290,7 +292,8 @@ struct Interp {
         // teardown: delete everything, heap must balance
         ctx.step((int)c.size());
         for (int i = 0; i < NSLOT; i++) if (m[i].exists) { int r = c01_del(i); VT_CHECK(ctx, r == 1, "mismatch", "del; del returned FALSE"); m[i].exists = false; }
-        if (!ht_overflowed() && ht_live_count() != 0) {
+        if (tracker_final(ctx)) {
+        } else if (!ht_overflowed() && ht_live_count() != 0) {
             char buf[256];
             ht_describe(buf, sizeof buf);
             ctx.fail("leak", "heap-not-balanced; " + std::to_string(ht_live_count()) + " block(s), " + std::to_string(ht_live_bytes()) + " bytes still live after deleting every object: " + buf);
